@@ -3,6 +3,8 @@ package c12
 import (
 	"runtime"
 
+	"github.com/pinealctx/neptune/syncx/pipe/mq"
+
 	"verifh/engine"
 )
 
@@ -74,5 +76,72 @@ func lateWakerCase(k *engine.Case) {
 	}
 	if items > 1 {
 		k.Fail("pop-after-close-returned-item:"+f.short(), "%d waiting consumers received items although only one item can have been taken before the queue was closed", items)
+	}
+}
+
+// mqReuseCase: queues are independent instances. A two-level queue is used, closed, drained
+// and cleared (try-clear succeeds: closed and empty); then a second queue is created and
+// filled. The first queue stays closed and empty (PopAnyway reports closed, nothing from the
+// second queue shows up in it), and the second queue hands out exactly its own items in order.
+func mqReuseCase(k *engine.Case) {
+	r := k.R
+	a := mq.NewMQ()
+	na := 1 + r.Intn(6)
+	for i := 0; i < na; i++ {
+		if r.Intn(2) == 0 {
+			a.AddCtrl(1000 + i)
+		} else {
+			a.AddReq(1000 + i)
+		}
+	}
+	a.Close()
+	for i := 0; i < na; i++ {
+		if _, err := a.PopAnyway(); err != nil {
+			k.Fail("mismatch:mq.PopAnyway", "first queue: PopAnyway #%d of %d items after Close returned %v", i, na, err)
+			return
+		}
+	}
+	if !a.TryClear() {
+		k.Fail("mismatch:mq.TryClear", "first queue: closed and drained, TryClear returned false")
+		return
+	}
+	b := mq.NewMQ()
+	var wantCtrl, wantReq []int
+	nb := 1 + r.Intn(8)
+	for i := 0; i < nb; i++ {
+		if r.Intn(2) == 0 {
+			b.AddCtrl(2000 + i)
+			wantCtrl = append(wantCtrl, 2000+i)
+		} else {
+			b.AddReq(2000 + i)
+			wantReq = append(wantReq, 2000+i)
+		}
+	}
+	k.Logf("first queue: %d items, closed, drained, cleared; second queue: %d control + %d request items", na, len(wantCtrl), len(wantReq))
+	k.Nontrivial()
+	k.Evals(1)
+	k.Count("mq_reuse_cases", 1)
+	// the first queue again (it is closed: no call on it blocks)
+	for i := 0; i < 2; i++ {
+		if v, err := a.PopAnyway(); err == nil {
+			k.Fail("mismatch:mq.PopAnyway", "first queue (closed, drained and cleared before the second queue was created): PopAnyway returned item %v", v)
+			return
+		}
+	}
+	if err := a.AddReq(77); err == nil {
+		k.Fail("mismatch:mq.Add", "first queue (closed and cleared): AddReq was accepted")
+		return
+	}
+	b.Close()
+	want := append(append([]int(nil), wantCtrl...), wantReq...)
+	for i, w := range want {
+		v, err := b.PopAnyway()
+		if err != nil || v != w {
+			k.Fail("mismatch:mq.PopAnyway", "second queue: item #%d handed out is (%v, %v), its own items in order are %v", i, v, err, want)
+			return
+		}
+	}
+	if v, err := b.PopAnyway(); err == nil {
+		k.Fail("mismatch:mq.PopAnyway", "second queue: after its %d items PopAnyway returned one more: %v", len(want), v)
 	}
 }
